@@ -119,3 +119,108 @@ def thread_history(rng, s, length, p_legal_num=85, with_affinity=True, end_all=T
                 else:
                     s.events.append((t, clk, "OH" + v, b""))
     return st
+
+
+def replay_states(s):
+    """shadow replay of the OH* events: returns for each event index the state of its thread AFTER it, or None if illegal"""
+    st = {}
+    out = []
+    for (t, clk, mcv, pl) in s.events:
+        cur = st.get(t, "Unknown")
+        if mcv.startswith("OH") and mcv[2] in NEXT:
+            if mcv[2] in LEGAL[cur]:
+                cur = NEXT[mcv[2]]
+                st[t] = cur
+        out.append(cur)
+    return out
+
+
+def add_model_events(rng, s, tables, density_num=60, wrong_num=4):
+    """inserts model events (table-driven push/pop/set, flush, kernel) between the existing events.
+    Clocks are multiplied by 100 first."""
+    after = replay_states(s)
+    base = [(t, clk * 100, mcv, pl) for (t, clk, mcv, pl) in s.events]
+    ids = {m["dir"]: m["id"] for m in tables["models"]}
+    names = {m["dir"]: m["name"] for m in tables["models"]}
+    tab = {}
+    for e in tables["table"]:
+        if names[e["model"]] in s.enabled:
+            tab.setdefault(e["model"], []).append(e)
+    stacks = {}      # (thread, model, chan) -> list
+    ooc = {}
+    new = []
+    for i, (t, clk, mcv, pl) in enumerate(base):
+        new.append((t, clk, mcv, pl))
+        state = after[i]
+        nxt = base[i + 1][1] if i + 1 < len(base) else clk + 100
+        room = min(90, nxt - clk - 1)
+        k = 0
+        c = clk
+        while room > 2 and rng.below(100) < density_num and k < 6:
+            k += 1
+            c += rng.range(1, max(1, room // 8))
+            if c >= nxt:
+                break
+            kind = rng.below(100)
+            if "kernel" in s.enabled and kind < 8 and c + 3 < nxt:
+                # out of CPU and back in within the gap (ovni and nOS-V events are refused while out)
+                new.append((t, c, "KCO", b""))
+                if rng.chance(1, 3) and state == "Running":
+                    safe = [m for m in sorted(tab) if m in ("nanos6", "mpi", "tampi", "nodes", "openmp")]
+                    if safe:
+                        m = rng.choice(safe)
+                        e = rng.choice([e for e in tab[m] if e["action"] == "IGN"] or [None])
+                        if e:
+                            new.append((t, c + 1, chr(ids[m]) + chr(e["c"]) + chr(e["v"]), b""))
+                if rng.chance(1, 25):
+                    new.append((t, c + 1, "OF[", b""))      # refused: out of CPU
+                c += 2
+                new.append((t, c, "KCI", b""))
+                continue
+            if kind < 14 and state in ("Running", "Cooling", "Warming", "Paused"):
+                fl = stacks.setdefault((t, "ovni", "flush"), [])
+                if fl:
+                    new.append((t, c, "OF]", b"")); fl.pop()
+                else:
+                    new.append((t, c, "OF[", b"")); fl.append(1)
+                continue
+            if not tab:
+                continue
+            model = rng.choice(sorted(tab))
+            okstates = ("Running", "Cooling", "Warming") if model in ("nosv", "nanos6") else ("Running",)
+            if state not in okstates and not rng.chance(1, 25):
+                continue
+            ents = tab[model]
+            mid = chr(ids[model])
+            r = rng.below(100)
+            if r < wrong_num:
+                # an event code that is not in the table
+                new.append((t, c, mid + rng.choice("SUMAHPRWTC") + rng.choice("zZ9"), b""))
+                continue
+            if r < 50:
+                # pop something open, usually correctly
+                opened = [(key, stk) for key, stk in stacks.items() if key[0] == t and key[1] == model and stk]
+                if opened:
+                    key, stk = rng.choice(opened)
+                    val = stk[-1] if not rng.chance(wrong_num, 100) else (stk[0] if len(stk) > 1 else stk[-1] + 1)
+                    pops = [e for e in ents if e["action"] == "POP" and e["chan"] == key[2] and e["value"] == val]
+                    if pops:
+                        e = rng.choice(pops)
+                        new.append((t, c, mid + chr(e["c"]) + chr(e["v"]), b""))
+                        if val == stk[-1]:
+                            stk.pop()
+                        continue
+            e = rng.choice(ents)
+            if e["action"] == "PUSH":
+                stk = stacks.setdefault((t, model, e["chan"]), [])
+                if stk and stk[-1] == e["value"] and not rng.chance(1, 6):
+                    continue
+                new.append((t, c, mid + chr(e["c"]) + chr(e["v"]), b""))
+                if state in okstates:
+                    stk.append(e["value"])
+            elif e["action"] in ("SET", "IGN"):
+                new.append((t, c, mid + chr(e["c"]) + chr(e["v"]), b""))
+            elif e["action"] == "POP" and rng.chance(wrong_num, 100):
+                new.append((t, c, mid + chr(e["c"]) + chr(e["v"]), b""))
+    s.events = new
+    return stacks
